@@ -3,6 +3,7 @@ From Mage Require Import Base.Strs Model.Gen.
 
 (* what harness/unitrun op "primary" reports after parse.PrimaryPackage + the two sort.Sort calls *)
 Record pobs := {
+  o_desc : string;                                                         (* PkgInfo.Description *)
   o_imports : list (string * string * string * list (string * string));   (* UniqueName, Path, Alias, [(TargetName, Package)] *)
   o_funcs : list string;                                                   (* TargetName of the local functions *)
   o_aliases : list (string * string * string);                             (* key, TargetName, Package of the function *)
@@ -10,6 +11,7 @@ Record pobs := {
 
 (* what is read back from mage_output_file.go *)
 Record fobs := {
+  fo_desc : string;                           (* the string printed first by list(), "" if none *)
   fo_imports : list (string * string);        (* the lines `<UniqueName> "<Path>"` of the import block, in order *)
   fo_targets : list (string * string);        (* final switch, in order: TargetName, package qualifier of the call *)
   fo_aliases : list (string * string);        (* alias switch, in order: lower-cased key, TargetName *)
@@ -29,7 +31,8 @@ Fixpoint env_of (l : list (string * (string * list pfunc))) (p : string) : optio
 
 Definition proj (t : tdata) : pobs :=
   let tp := fun f => (target_name f, fn_pkg f) in
-  {| o_imports := map (fun i => (i_uname i, i_path i, i_alias i, map tp (i_funcs i))) (td_imports t);
+  {| o_desc := td_desc t;
+     o_imports := map (fun i => (i_uname i, i_path i, i_alias i, map tp (i_funcs i))) (td_imports t);
      o_funcs := map target_name (td_funcs t);
      o_aliases := map (fun kf => (fst kf, target_name (snd kf), fn_pkg (snd kf))) (td_aliases t);
      o_default := option_map tp (td_default t) |}.
@@ -41,7 +44,8 @@ Fixpoint lower (s : string) : string :=
 
 Definition fproj (t : tdata) : fobs :=
   let tp := fun f => (target_name f, fn_pkg f) in
-  {| fo_imports := map (fun i => (i_uname i, i_path i)) (td_imports t);
+  {| fo_desc := td_desc t;
+     fo_imports := map (fun i => (i_uname i, i_path i)) (td_imports t);
      fo_targets := map tp (td_funcs t) ++ flat_map (fun i => map tp (i_funcs i)) (td_imports t);
      fo_aliases := map (fun kf => (lower (fst kf), target_name (snd kf))) (td_aliases t);
      fo_default := match td_default t with Some f => fn_pkg f | None => "" end |}.
@@ -68,11 +72,11 @@ Definition sss_eqb := pair_eqb ss_eqb String.eqb.
 Definition imp_eqb := pair_eqb sss_eqb (list_eqb ss_eqb).
 
 Definition pobs_eqb (a b : pobs) : bool :=
-  list_eqb imp_eqb (o_imports a) (o_imports b) && list_eqb String.eqb (o_funcs a) (o_funcs b) &&
+  String.eqb (o_desc a) (o_desc b) && list_eqb imp_eqb (o_imports a) (o_imports b) && list_eqb String.eqb (o_funcs a) (o_funcs b) &&
   list_eqb sss_eqb (o_aliases a) (o_aliases b) && option_eqb ss_eqb (o_default a) (o_default b).
 
 Definition fobs_eqb (a b : fobs) : bool :=
-  list_eqb ss_eqb (fo_imports a) (fo_imports b) && list_eqb ss_eqb (fo_targets a) (fo_targets b) &&
+  String.eqb (fo_desc a) (fo_desc b) && list_eqb ss_eqb (fo_imports a) (fo_imports b) && list_eqb ss_eqb (fo_targets a) (fo_targets b) &&
   list_eqb ss_eqb (fo_aliases a) (fo_aliases b) && String.eqb (fo_default a) (fo_default b).
 
 Inductive verdict := VObs (m : option pobs) | VFile (m : option fobs) | VOrder (m : option pobs).
